@@ -33,6 +33,8 @@ template <class T> struct G3 : Vec3<T>
 };
 
 template <class T> struct TName;
+template <> struct TName<signed char> { static const char* n () { return "signed char"; } };
+template <> struct TName<unsigned char> { static const char* n () { return "unsigned char"; } };
 template <> struct TName<short> { static const char* n () { return "short"; } };
 template <> struct TName<int> { static const char* n () { return "int"; } };
 template <> struct TName<int64_t> { static const char* n () { return "int64"; } };
